@@ -1022,27 +1022,40 @@ Proof.
   - apply Forall_rev. exact F.
 Qed.
 
+(* a type field that starts with two significant characters and goes on with a blank or a NUL reads as those two
+   characters, or as them, a blank and more *)
+Lemma two_char_shape t a b : nth 0 t 0 = a -> nth 1 t 0 = b -> a <> 0 -> b <> 0 -> b <> 32 -> (nth 2 t 0 = 32 \/ nth 2 t 0 = 0) ->
+  c_string t 32 = [a; b] \/ exists w, c_string t 32 = a :: b :: 32 :: w.
+Proof.
+  intros H0 H1 Ha Hb Hb32 H2. destruct t as [|a' [|b' [|c u]]]; cbn [nth] in *; try congruence.
+  - subst a' b'. left. unfold c_string, cstr_or_all. cbn [firstn cstr].
+    destruct (Z.eqb_spec a 0); [contradiction|]. destruct (Z.eqb_spec b 0); [contradiction|]. cbn [option_map rev app drop_blanks].
+    destruct (Z.eqb_spec b 32); [contradiction|]. reflexivity.
+  - subst a' b'. unfold c_string.
+    assert (S : exists w, cstr_or_all (firstn 32 (a :: b :: c :: u)) = [a; b] \/
+                          cstr_or_all (firstn 32 (a :: b :: c :: u)) = a :: b :: 32 :: w).
+    { change (firstn 32 (a :: b :: c :: u)) with (a :: b :: c :: firstn 29 u). unfold cstr_or_all. cbn [cstr].
+      destruct (Z.eqb_spec a 0); [contradiction|]. destruct (Z.eqb_spec b 0); [contradiction|].
+      destruct H2 as [->| ->].
+      - change (32 =? 0) with false. cbv iota. destruct (cstr (firstn 29 u)) as [r|]; cbn [option_map]; eauto.
+      - exists []. left. reflexivity. }
+    destruct S as (w & [E|E]); rewrite E.
+    + left. cbn [rev app drop_blanks]. destruct (Z.eqb_spec b 32); [contradiction|]. reflexivity.
+    + destruct (strip_prefix (a :: b :: 32 :: w)) as (tl & Es & Fb).
+      destruct (rev (drop_blanks (rev (a :: b :: 32 :: w)))) as [|x [|y [|z p]]]; cbn [app] in Es.
+      * subst tl. inversion Fb as [|? ? ? Fb']; subst. inversion Fb'; subst. contradiction.
+      * inversion Es; subst. inversion Fb; subst. contradiction.
+      * inversion Es; subst. left. reflexivity.
+      * inversion Es; subst. right. eexists. reflexivity.
+Qed.
+
 (* the data type of a link node accepted by repair 03: "LK", or "LK" and a blank before anything else *)
 Lemma lk_shape t : nth 0 t 0 = 76 -> nth 1 t 0 = 75 -> (nth 2 t 0 = 32 \/ nth 2 t 0 = 0) ->
   map upc (c_string t 32) = [76; 75] \/ exists w, map upc (c_string t 32) = 76 :: 75 :: 32 :: w.
 Proof.
-  intros H0 H1 H2. destruct t as [|a [|b [|c u]]]; cbn [nth] in *; try discriminate.
-  - subst. left. reflexivity.
-  - subst a b. unfold c_string.
-    assert (S : exists w, cstr_or_all (firstn 32 (76 :: 75 :: c :: u)) = [76; 75] \/
-                          cstr_or_all (firstn 32 (76 :: 75 :: c :: u)) = 76 :: 75 :: 32 :: w).
-    { destruct H2 as [->| ->].
-      - change (firstn 32 (76 :: 75 :: 32 :: u)) with (76 :: 75 :: 32 :: firstn 29 u).
-        unfold cstr_or_all. cbn [cstr Z.eqb]. change (76 =? 0) with false. change (75 =? 0) with false. change (32 =? 0) with false.
-        cbv iota. destruct (cstr (firstn 29 u)) as [r|]; cbn [option_map]; eauto.
-      - exists []. left. reflexivity. }
-    destruct S as (w & [E|E]); rewrite E; [left; reflexivity|].
-    destruct (strip_prefix (76 :: 75 :: 32 :: w)) as (tl & Es & Fb).
-    destruct (rev (drop_blanks (rev (76 :: 75 :: 32 :: w)))) as [|x [|y [|z p]]]; cbn [app] in Es.
-    + subst tl. inversion Fb; subst. discriminate.
-    + inversion Es; subst. inversion Fb; subst. discriminate.
-    + inversion Es; subst. left. reflexivity.
-    + inversion Es; subst. right. eexists. reflexivity.
+  intros H0 H1 H2. destruct (two_char_shape t 76 75 H0 H1 ltac:(lia) ltac:(lia) ltac:(lia) H2) as [E|(w & E)]; rewrite E.
+  - left. reflexivity.
+  - right. exists (map upc w). reflexivity.
 Qed.
 
 (* with such a type ADFI_evaluate_datatype stores one token and the terminator: tokenized_data_type[2] is enough *)
@@ -1245,15 +1258,46 @@ Proof.
   repeat (destruct H as [E|H]; [inversion E; subst; reflexivity|]). contradiction.
 Qed.
 
+Lemma upc_simple2 c1 c2 : In (c1, c2) simple_types -> upc c1 = c1 /\ upc c2 = c2.
+Proof.
+  unfold simple_types. cbn [In]. intros H.
+  repeat (destruct H as [E|H]; [inversion E; subst; split; reflexivity|]). contradiction.
+Qed.
+Lemma simple_type_chars c1 c2 : In (c1, c2) simple_types -> c1 <> 0 /\ c2 <> 0 /\ c2 <> 32.
+Proof.
+  unfold simple_types. cbn [In]. intros H.
+  repeat (destruct H as [E|H]; [inversion E; subst; repeat split; discriminate|]). contradiction.
+Qed.
+Lemma dt_sizes_some sz c1 c2 : In (c1, c2) simple_types -> exists p, dt_sizes sz c1 c2 = Some p /\ ((c1 =? 77) && (c2 =? 84)) = false.
+Proof.
+  unfold simple_types. cbn [In]. intros H.
+  repeat (destruct H as [E|H]; [inversion E; subst; eexists; split; reflexivity|]). contradiction.
+Qed.
+
 (* ADF_Read_All_Data into a buffer of mach_size(type) * count bytes, the type being the one ADF_Get_Data_Type names *)
 Lemma read_all_data_safe h t cnt : 0 < mach_size t -> cnt = prod_dims h -> 0 <= cnt -> cnt * mach_size t <= DATA_CAP ->
   0 <= nh_nchunks h -> safe (read_all_data R f h t (cnt * mach_size t)).
 Proof.
-  intros Hms Hcnt Hc0 Hcap Hnch. unfold read_all_data. cbn [fx_rtype repaired].
-  destruct (beq t (c_string (nh_dtype h) 32)) eqn:Eb; cbn [negb]; [|exact I]. apply beq_true in Eb.
+  intros Hms Hcnt Hc0 Hcap Hnch. unfold read_all_data. cbn [fx_rtype repaired andb].
   destruct (mach_size_types t Hms) as (c1 & c2 & Et & Hin). rewrite Et in *.
-  unfold eval_dtype. rewrite <- Eb, (upc_simple _ _ Hin).
-  pose proof read_file_header_safe as HS. destruct (read_file_header R f) as [h0| | | | | | | | |] eqn:Eh; cbn [bind]; try exact HS.
+  destruct (simple_type_chars _ _ Hin) as (Hc1 & Hc2 & Hc3).
+  destruct (strncmp2_eq [c1; c2] (nh_dtype h)) eqn:Es; cbn [negb orb]; [|exact I].
+  change (nth 2 ([c1; c2] ++ [0; 0; 0]) 0 =? 0) with true. cbn [andb].
+  destruct ((nth 2 (nh_dtype h) 0 =? 32) || (nth 2 (nh_dtype h) 0 =? 0)) eqn:E2; cbn [negb]; [|exact I].
+  unfold strncmp2_eq in Es. cbn [app nth] in Es. apply Bool.andb_true_iff in Es. destruct Es as [Es0 Es1].
+  apply Z.eqb_eq in Es0. destruct (Z.eqb_spec c1 0); [contradiction|]. cbn [orb] in Es1. apply Z.eqb_eq in Es1.
+  assert (H2 : nth 2 (nh_dtype h) 0 = 32 \/ nth 2 (nh_dtype h) 0 = 0)
+    by (apply Bool.orb_true_iff in E2; destruct E2 as [E|E]; apply Z.eqb_eq in E; auto).
+  pose proof read_file_header_safe as HS. unfold eval_dtype.
+  destruct (two_char_shape (nh_dtype h) c1 c2 (eq_sym Es0) (eq_sym Es1) Hc1 Hc2 Hc3 H2) as [Eb|(w & Eb)]; rewrite Eb.
+  2:{ (* the type goes on after a blank: ADFI_evaluate_datatype refuses it *)
+      destruct (upc_simple2 _ _ Hin) as (U1 & U2). cbn [map]. rewrite U1, U2. change (upc 32) with 32.
+      destruct (read_file_header R f) as [h0| | | | | | | | |]; cbn [bind]; try exact HS.
+      destruct (dt_sizes_some (fh_sizes h0) _ _ Hin) as (pp & Ep & Emt).
+      change 40%nat with (S (S 38)). cbn [dt_parse tl]. cbv beta iota delta [nth]. rewrite Emt, Ep. destruct pp as [sf sm].
+      change (0 >=? 12) with false. change (32 =? 91) with false. change (32 =? 44) with false. exact I. }
+  rewrite (upc_simple _ _ Hin).
+  destruct (read_file_header R f) as [h0| | | | | | | | |] eqn:Eh; cbn [bind]; try exact HS.
   pose proof (read_file_header_sizes _ Eh) as Hsz.
   change 40%nat with (S (S 38)).
   pose proof (dt_parse_safe12 (fh_sizes h0) (S (S 38)) [c1; c2] true 0 0 0 true ltac:(lia) ltac:(cbn; lia)) as HD.
